@@ -5,6 +5,7 @@ import (
 	"fmt"
 	"runtime"
 	"sort"
+	"strconv"
 	"strings"
 	"sync"
 	"sync/atomic"
@@ -19,6 +20,7 @@ import (
 	"verif/ref"
 )
 
+var c09DeepSeq int64 = 3
 var c09YieldEvery int64
 var c09YieldCtr int64
 
@@ -136,6 +138,11 @@ func init() {
 				menu = append(menu, opT{op: c08Op{kind: "js", file: f}}, opT{op: c08Op{kind: "js", file: f, es6: true, msgs: true}}, opT{op: c08Op{kind: "js", file: f, viaGen: true}})
 			}
 			menu = append(menu, opT{kind: 1}, opT{kind: 2, expr: exprs[r.Intn(len(exprs))]}, opT{kind: 3})
+			// work this process has never done before: code nested deeper than anything so far is compiled, generated and
+			// rendered for the first time by all goroutines at once (what a library keeps per process and grows on demand
+			// is grown here under contention); its sequential results are taken afterwards
+			deepD := int(atomic.AddInt64(&c09DeepSeq, 5))
+			menu = append(menu, opT{kind: 5, expr: fmt.Sprint(deepD)}, opT{kind: 5, expr: fmt.Sprint(deepD + 2)}, opT{kind: 5, expr: fmt.Sprint(deepD)})
 			// Tofu.Render with Go structs of three different types as data (converted anew by every render)
 			for rep := 0; rep < 3; rep++ {
 				menu = append(menu, opT{kind: 4, expr: "A"}, opT{kind: 4, expr: "B"}, opT{kind: 4, expr: "C"})
@@ -183,6 +190,17 @@ func init() {
 					}
 					_, err := b.Compile()
 					return "compile-shared-globals:" + errClass(err)
+				case 5:
+					d, _ := strconv.Atoi(o.expr)
+					src := "{namespace dp}\n/** @param? a */\n{template .t}\n" + strings.Repeat("{if not $a}{switch 1}{case 1}", d) + "{foreach $x in [1]}<{$x}>{/foreach}" + strings.Repeat("{/switch}{/if}", d) + "\n{/template}\n"
+					reg, err := compileRegistry([]srcFile{{"deep.soy", src}}, nil)
+					if err != nil {
+						return "deep-compile-error"
+					}
+					var js, out bytes.Buffer
+					werr := soyjs.Write(&js, reg.SoyFiles[0], soyjs.Options{})
+					rerr := soyhtml.NewTofu(reg).Render(&out, "dp.t", nil)
+					return fmt.Sprintf("deep:%s:%x:%s:%s", errClass(werr), fw.HashStr(js.String()), errClass(rerr), out.String())
 				case 2:
 					n, err := parse.Expr(o.expr)
 					if err != nil {
@@ -203,8 +221,15 @@ func init() {
 			atomic.StoreInt64(&c09YieldEvery, 0)
 			golden := make([]string, len(menu))
 			for k, o := range menu {
-				golden[k] = runOn(cold, o)
+				if o.kind != 5 {
+					golden[k] = runOn(cold, o)
+				}
 			}
+			type lateT struct {
+				g, k int
+				got  string
+			}
+			var late []lateT
 			// the concurrent stanza
 			old := runtime.GOMAXPROCS(procs)
 			defer runtime.GOMAXPROCS(old)
@@ -243,7 +268,11 @@ func init() {
 						got := run(menu[k])
 						e := atomic.AddInt64(&seq, 1)
 						events[g] = append(events[g], c09Event{s, g, k, true}, c09Event{e, g, k, false})
-						if got != golden[k] {
+						if menu[k].kind == 5 {
+							mu.Lock()
+							late = append(late, lateT{g, k, got})
+							mu.Unlock()
+						} else if got != golden[k] {
 							mu.Lock()
 							mismatches = append(mismatches, mism{g, k, golden[k], got})
 							mu.Unlock()
@@ -254,6 +283,15 @@ func init() {
 			close(startGate)
 			wg.Wait()
 			atomic.StoreInt64(&c09YieldEvery, 0)
+			for _, l := range late {
+				if golden[l.k] == "" {
+					golden[l.k] = runOn(cold, menu[l.k])
+				}
+				if l.got != golden[l.k] {
+					mismatches = append(mismatches, mism{l.g, l.k, golden[l.k], l.got})
+				}
+			}
+			ctx.Obs("first_time_deep_operations", int64(len(late)))
 			// interleaving signature and overlap count
 			var all []c09Event
 			for _, ev := range events {
